@@ -62,6 +62,18 @@ func (x *Exec) coinSorts() (coinsSort, coinSort string, coinT types.Type) {
 	return
 }
 
+// decDefs: name of a fixed-point result -> (operation, operands), for composite lemmas
+var decDefs = map[string][3]string{}
+
+// unscale: X for a term (* X 10^18)
+func unscale(t string) (string, bool) {
+	const suf = " 1000000000000000000)"
+	if strings.HasPrefix(t, "(* ") && strings.HasSuffix(t, suf) {
+		return t[3 : len(t)-len(suf)], true
+	}
+	return "", false
+}
+
 func init() {
 	I := func(x *Exec, s *State, a *Val) string { return x.termOf(s, a) }
 	B := types.Typ[types.Bool]
@@ -172,6 +184,24 @@ func init() {
 				r = x.name(s, "dec", "Int", sx(fn, a))
 			}
 			s.assume(lemma(r, a, b))
+			decDefs[r] = [3]string{fn, a, b}
+			if fn == "dec.trunc" {
+				// L-share: r = trunc(multrunc(Xa*P, quotrunc(Xb*P, Xc*P))) ==> r*Xc <= Xa*Xb for Xa, Xb >= 0, Xc > 0.
+				// A consequence of the three bound lemmas above (r*P <= m, m*P <= Xa*P*q, q*Xc*P <= Xb*P*P), stated in the
+				// unscaled monomials the reward invariants use; machine-checked on its own: /verif/lemmas/dec_share.smt2.
+				// Without it the proof has to multiply the three inequalities itself and is seed-sensitive.
+				if m, ok := decDefs[a]; ok && m[0] == "dec.multrunc" {
+					if q, ok := decDefs[m[2]]; ok && q[0] == "dec.quotrunc" {
+						xa, okA := unscale(m[1])
+						xb, okB := unscale(q[1])
+						xc, okC := unscale(q[2])
+						if okA && okB && okC {
+							x.c.note("L-share: composite bound lemma for TruncateInt(MulTruncate(a, QuoTruncate(b, c))) (machine-checked consequence of the bound lemmas)")
+							s.assume(implies(and(sx(">=", xa, "0"), sx(">=", xb, "0"), sx(">", xc, "0")), sx("<=", sx("*", r, xc), sx("*", xa, xb))))
+						}
+					}
+				}
+			}
 			return x.valOf(s, resT, r), true
 		}
 	}
